@@ -5,6 +5,15 @@ props = [json.loads(l) for l in open('/verif/properties.jsonl')]
 ids = [p['id'] for p in props]
 
 CLAIMS = {
+ "C18": dict(cat="other", ref="DESIGN.md section 4, C18",
+   text="EXPLICITLY WEAK: only necessary structural conditions - comparison normal form of both traversals (advance iff node key < key, siblings agree; match iff equal on the traversal's result), level loops down to 0 inclusive, Put splices levels 0..rank-1 reading the successor before linking, Remove's loop covers the node's levels and unlinks only where the path points to it, results under equal/not-equal with no other value source. The ordered-map behaviour over histories, independence from random heights and the printed form are NOT decided (they need a heap-shape invariant).",
+   note="assumes the comparison trait is a total order; internal/maplike is staged into a temporary module (no module of the repository builds it)",
+   tech="static analysis: path constraints and counted-loop bounds over SSA of the staged package"),
+ "C19": dict(cat="other", ref="DESIGN.md section 4, C19",
+   text="ADT laws of both implementations by composing symbolic operation summaries and normalising with a fixed rewrite system (field-of-literal, linear arithmetic, append/reslice/len axioms): Length(New)=len, Head(Cons)=x, Tail(Cons)=s, Length(Cons)=Length+1, IsEmpty=(Length==0); persistence (no store into / append onto the argument); list.New's descending prepend loop; Fold's accumulator discipline. 'Any script gives the same list on both implementations' is the initial-algebra argument on paper.",
+   note="the rewrite axioms for append and reslicing are a trusted base; internal/seq is staged into a temporary module",
+   tech="static analysis: symbolic composition of straight-line SSA summaries + term rewriting"),
+
  "C08": dict(cat="other", ref="DESIGN.md section 4, C08",
    text="Pump arm constraints (one blocking select per iteration with the receive arm always on the send-side channel itself; enq exactly once from a per-iteration fresh cell; send arm sends head on emit(...) and deqs once), emit/head/enq/deq conditional-store summaries, flush loops, close typestate. Known findings: D5 (sender close => double close, backlog dropped) and D6 (cancel loses buffered sends). FIFO/lossless/duplicate-free follows on paper from single pump + queue discipline; interleavings are not enumerated.",
    note="assumes sync.Pool hands out unshared nodes and never blocks",
